@@ -726,15 +726,22 @@ def rules(repo=None):
 
 
 EXPLANATION = (
-    "R1: _run_cp, _run_ln and _run_mv are alpha-equivalent after abstracting the transfer callee; each iterates "
-    "ilsdrf(src, **kwargs) directly, computes destpath = join(dest, relpath(srcpath, src)), creates the directory if missing and "
-    "calls the primitive once, unconditionally. R2: the dest names of all add_argument calls (following the helper builders) plus "
-    "attributes added, minus the keys deleted, equal ilsdrf's parameter list for cp/mv/ln/ls; include/exclude options are "
-    "store_true/store_false pairs on one destination; --only switches recursion off. R3: drf_command registers the four commands "
-    "with the matching builders whose set_defaults(func=...) name the matching run functions; primitives are shutil.copy2, "
-    "os.link/os.symlink, shutil.move; ls lists through ilsdrf/lsdrf. R4: the channel list is only split on commas and mapped to (source, destination) "
-    "pairs; a pair is dropped only if it repeats a kept one or, with recursion on, lies component-wise below another requested "
-    "channel (so every file is transferred exactly once and no requested channel is lost). Does NOT decide byte identity (library code).")
-TECHNIQUE = ('Python ast; alpha-equivalence of sibling commands; option-table vs signature agreement; registry/table checks')
+    'R1: _run_cp, _run_ln and _run_mv (private helpers inlined, a generator helper iterated by a for loop included) are '
+    'alpha-equivalent after abstracting the transfer callee; each iterates ilsdrf(src, **kwargs), computes destpath = '
+    'join(dest, relpath(srcpath, src)), creates the directory if missing and calls the primitive once, unconditionally; a'
+    ' destination component carried from one listed file to the next is accepted only as the memo idiom `if key != last: '
+    'last = key; value = ...`, and a memo whose value reads a variable of the (src, dest) pair that is not part of its '
+    'key while the key survives from one pair to the next is reported (stale destination); other carried state is not '
+    'decided (exit 2). R2: the dest names of all add_argument calls (following the helper builders) plus attributes '
+    "added, minus the keys deleted, equal ilsdrf's parameter list for cp/mv/ln/ls; include/exclude options are "
+    'store_true/store_false pairs on one destination; --only switches recursion off. R3: drf_command registers the four '
+    'commands with the matching builders whose set_defaults(func=...) name the matching run functions; primitives are '
+    'shutil.copy2, os.link/os.symlink, shutil.move; ls lists through ilsdrf/lsdrf. R4: the channel list is only split on '
+    'commas and mapped to (source, destination) pairs; a pair is dropped only if it repeats a kept one or, with recursion'
+    ' on, lies component-wise below another requested channel (so every file is transferred exactly once and no requested'
+    ' channel is lost). Does NOT decide byte identity (library code).')
+TECHNIQUE = (
+    'Python ast; alpha-equivalence of sibling commands; loop-carried dependence of the destination; option-table vs '
+    'signature agreement; registry/table checks')
 ASSUMPTIONS = ["argparse derives dest from the first long option string", "shutil/os primitives behave as documented"]
 FILES = [LD, "python/digital_rf/drf_command.py"]
